@@ -75,6 +75,8 @@ def obs_program(params):
 
             def queue_events(self, timeout):
                 if self.k < len(self.vals):
+                    # a real emitter blocks in a read here, after its stop flag was tested: others may run
+                    s.yield_("emit")
                     w = wid(self.watch)
                     v = self.vals[self.k]
                     self.k += 1
